@@ -16,7 +16,7 @@ RULE = ("cases = (mesh, fields-per-node, list of (nodeSet, component) essential 
         "connectivity with the same (set name, component) list but redefined set contents. Non-trivial = BC mask neither empty nor full; "
         "distinct = canonical hash of the case parameters.")
 ASSUMPTIONS = ["numpy boolean-mask oracle is correct", "meshes come from the library's own structured/elevation generators or the harness's Delaunay generator"]
-REQUIRED = {"all": {"assembly_entries_checked": 1000, "roundtrip_fields": 50, "bc_empty": 1, "bc_full": 1, "history_steps": 24}}
+REQUIRED = {"all": {"assembly_entries_checked": 1000, "roundtrip_fields": 50, "bc_empty": 1, "bc_full": 1, "history_steps": 24, "assembled_at_scale_2^-50": 50}}
 WATCHDOG_S = {"quick": 1800, "thorough": 7200}
 
 
@@ -159,6 +159,15 @@ def _check_manager(res, mesh, dim, ebcs, rng):
         Kd[onp.ix_(ue, ue)] += kvr[e][onp.ix_(unk, unk)]
     Ka = onp.asarray(K.todense()) if nu > 0 else onp.zeros((0, 0))
     res.expect("assembled_matrix", Ka.shape == Kd.shape and onp.array_equal(Ka, Kd), {"shape": list(Ka.shape)})
+    # the same at other magnitudes (power-of-two factors keep every sum exact): no entry may be dropped or altered because it
+    # is small or large in absolute terms
+    for e2 in (-70, -50, -40, 45):
+        f = 2.0 ** e2
+        Ks = SparseMatrixAssembler.assemble_sparse_stiffness_matrix(kv * f, mesh.conns, dm)
+        Ksa = onp.asarray(Ks.todense()) if nu > 0 else onp.zeros((0, 0))
+        res.expect("assembled_matrix_scaled", Ksa.shape == Kd.shape and onp.array_equal(Ksa, Kd * f), {"scale": f, "shape": list(Ksa.shape),
+                   "nnz_expected": int(onp.count_nonzero(Kd)), "nnz_got": int(onp.count_nonzero(Ksa))})
+        res.count("assembled_at_scale_2^%d" % e2)
 
 
 def run_case(case):
